@@ -156,6 +156,25 @@ def C16(c):
         rule="see explanation; the finite parts are enumerated completely, float conversion at every quantiser step")
 
 
+def C18(c):
+    c.proofs()
+    exe = need_harness(c)
+    if exe:
+        r = run_suite(exe, "candle", c.seed, c.tier, "C18-candle")
+        c.add_suite(r, sig_method)
+    return c.finish(
+        level="proof",
+        trusted=TRUSTED_COMMON + NUMERIC_TRUST[:1] + [
+            "validate on NaN/inf fields: classified bit patterns in the driver (validateBits), not a field theorem",
+            "Rust's integer grammar for PeriodType and str::trim's White_Space set are modelled in YataModel/Text.lean and "
+            "compared on generated and mutated strings; candles with |field| beyond 2^±400 are compared on validate only",
+        ],
+        rule="20k (thorough 200k) candles: valid, out-of-order (open/close outside, high<low), negative/zero/NaN/inf/subnormal "
+             "fields, every previous close position; every OHLCV method on Candle, 5-tuple and array (must agree bitwise); "
+             "Candle conversions; (a+b)+c vs a+(b+c); Source and MA strings: all names x case/whitespace/suffix mutations, "
+             "every kind x every length 0..=256, malformed numerals, random strings over the relevant alphabet")
+
+
 def replay(prop, path):
     """re-run a replay file: real code through the harness, then the driver"""
     text = open(path).read()
@@ -182,4 +201,4 @@ def replay(prop, path):
     return 1 if res["mismatches"] or res.get("error") else 0
 
 
-PROPS = {"C01": C01, "C02": C02, "C03": C03, "C04": C04, "C14": C14, "C16": C16}
+PROPS = {"C01": C01, "C02": C02, "C03": C03, "C04": C04, "C14": C14, "C16": C16, "C18": C18}
